@@ -10,7 +10,7 @@ import os
 import z3
 from pyvc.spec import Target, Lemma, State, NULLLOG
 from pyvc.values import Obj, Extern, FlexDict, unflex
-from pyvc.core import And, Or, Not, Implies, Iff, If, Eq, In, Sym, compare, OutsideSubset
+from pyvc.core import And, Or, Not, Implies, Iff, If, Eq, In, Sym, compare, OutsideSubset, Infeasible
 from pyvc import sstr
 from pyvc.sstr import SStr, Lit, Num, Atom
 
@@ -330,6 +330,99 @@ class ExpandList(Base):
                  len(got) == 5 and got[2] == st.refs[2] and got[3] == st.refs[3] and got[4] == st.refs[4])]
 
 
+G = 'python/experiment/model/graph.py'
+
+
+class DataReferenceClass(Base):
+    """graph.DataReference / graph.ComponentIdentifier: the classes the runtime uses to hold a parsed reference.  The REAL
+    constructors and properties are interpreted from their source (the stub objects take every method / property from
+    the class's current text); the parser they call is the real FlowIR code (inlined).  Printing what was parsed gives
+    the absolute spelling; the relative spelling together with its stage denotes the same producer, file and method."""
+    name = 'graph.DataReference (+ ComponentIdentifier)'
+    file = G
+    qualname = 'DataReference.__init__'
+    inline_class = {'this': (G, 'DataReference')}
+    inline = {'experiment.model.conf.ParseDataReference': (F, 'FlowIR.ParseDataReference', 'cls'),
+              'experiment.model.frontends.flowir.FlowIR.ParseProducerReference': (F, 'FlowIR.ParseProducerReference', 'cls')}
+    compare_return = False
+
+    def setup(self, c):
+        cls, kind, prod, is_comp, f, method, stage = self.common(c)
+        if not is_comp:
+            raise Infeasible()      # folders / application dependencies are classified elsewhere, never given to this class
+        absolute = c.one_of('spelling', [True, False])
+        ctx_stage = stage
+        if absolute:
+            # a reference that carries its stage ignores the stage of the context it is read in
+            ctx_stage = c.one_of('context_stage', [None, lambda: c.int('other_stage')])
+            if ctx_stage is not None:
+                c.require(compare('>=', ctx_stage, 0))
+        value = ref_string(c, prod, f, method, stage if absolute else None)
+        this = Obj('datareference')
+        return State(args=[this, value, ctx_stage], this=this, cls=cls, prod=prod, f=f, method=method, stage=stage, value=value)
+
+    def externs(self, c, st):
+        return {'ComponentIdentifier': Extern('ComponentIdentifier', lambda c, name, index=None:
+                                              c.new_instance(G, 'ComponentIdentifier', 'componentidentifier', name, index))}
+
+    def ensures(self, c, st, out):
+        if out.kind == 'raise':
+            return [('no-exception', False)]
+        this = st.this
+        pid = this.producerIdentifier
+        want_abs = ref_string(c, st.prod, st.f, st.method, st.stage)
+        want_rel = ref_string(c, st.prod, st.f, st.method, None)
+        want_id = S('stage', numeral(c, st.stage), '.', st.prod)
+        fr = this.fileRef
+        return [('printing-the-parsed-reference-gives-the-absolute-spelling', bool(same(this.absoluteReference, want_abs))),
+                ('string-representation-is-the-absolute-spelling', bool(same(this.stringRepresentation, want_abs))),
+                ('relative-spelling-names-the-same-producer-file-and-method', bool(same(this.relativeReference, want_rel))),
+                ('producer-identifier-is-stage-and-name', bool(same(pid.identifier, want_id) and same(pid.componentName, st.prod)
+                                                               and same(pid.namespace, S('stage', numeral(c, st.stage))))),
+                ('producer-stage-is-the-printed-or-the-context-stage', Eq(pid.stageIndex, st.stage)),
+                ('file-and-method-are-the-ones-printed', bool(((fr is None and st.f is None) or
+                                                               (fr is not None and st.f is not None and same(fr, st.f)))
+                                                              and this.method == st.method))]
+
+    def cross_compare(self, *a):
+        return []
+
+
+class ComponentIdentifierClass(Base):
+    """graph.ComponentIdentifier on its own: a relative name with its stage and the absolute name are the same identifier,
+    and an identifier printed by one instance parses back to the same parts"""
+    name = 'graph.ComponentIdentifier'
+    file = G
+    qualname = 'ComponentIdentifier.__init__'
+    inline_class = {'this': (G, 'ComponentIdentifier')}
+    inline = {'experiment.model.frontends.flowir.FlowIR.ParseProducerReference': (F, 'FlowIR.ParseProducerReference', 'cls')}
+    compare_return = False
+
+    def setup(self, c):
+        cls, kind, prod, is_comp, f, method, stage = self.common(c)
+        if not is_comp:
+            raise Infeasible()      # folders / application dependencies are classified elsewhere, never given to this class
+        absolute = c.one_of('spelling', [True, False])
+        name = S('stage', numeral(c, stage), '.', prod) if absolute else prod
+        this = Obj('componentidentifier')
+        return State(args=[this, name, None if absolute else stage], this=this, cls=cls, prod=prod, stage=stage)
+
+    def ensures(self, c, st, out):
+        if out.kind == 'raise':
+            return [('no-exception', False)]
+        this = st.this
+        want = S('stage', numeral(c, st.stage), '.', st.prod)
+        again = c.new_instance(G, 'ComponentIdentifier', 'reparsed', this.identifier)
+        return [('both-spellings-give-the-same-identifier', bool(same(this.identifier, want))),
+                ('parts', bool(same(this.componentName, st.prod) and same(this.relativeIdentifier, st.prod)) and
+                 Eq(this.stageIndex, st.stage)),
+                ('flowir-id-is-stage-and-name', Eq(this.flowir_id[0], st.stage) and bool(same(this.flowir_id[1], st.prod))),
+                ('identifier-parses-back-to-the-same-parts', bool(same(again.identifier, want) and same(again.componentName, st.prod)))]
+
+    def cross_compare(self, *a):
+        return []
+
+
 class ReferenceClassesBounded:
     """BOUNDED stand-in (native enumeration, never counted as proved) for the two classes that wrap the parser and the
     printer: graph.DataReference (absoluteReference / relativeReference) and graph.ComponentIdentifier (identifier,
@@ -393,6 +486,7 @@ class ReferenceClassesBounded:
         return fn
 
 
-TARGETS = [CompileReference(), ParsePrint(), Classify(), NonComponentForms(), Expand(), ExpandIdempotent(), ManifestTopLevel(), ExpandList()]
+TARGETS = [CompileReference(), ParsePrint(), Classify(), NonComponentForms(), Expand(), ExpandIdempotent(), ManifestTopLevel(), ExpandList(), DataReferenceClass(),
+           ComponentIdentifierClass()]
 LEMMAS = []
 BOUNDED = [ReferenceClassesBounded()]
